@@ -550,7 +550,9 @@ class Gen:
             return None
         self.sh, self.locals = trial, {}
         env = TypeEnv(self.tyall, fr_types)
-        ctx = (("T" if is_method else "E") if in_c else ("S" if is_method else "F"))
+        # context letters: F function / S method called from main; T method, E function called from a function body,
+        # U function called from a method body (the receiver is being copied: its global name is stale there too)
+        ctx = (("T" if is_method else ("U" if ctxc == "S" else "E")) if in_c else ("S" if is_method else "F"))
         kinds = ["w", "w", "w", "rd", "rd", "cp"] + ([] if in_c else ["call", "call"])
         body = []
         for _ in range(r.randint(1, 4)):
@@ -1159,7 +1161,7 @@ AVOID = [
     ("C07-struct-copy-loses-members", r"\|(decl|cp[ds]|retd?)\|" + P_TYPED + r"\|"),
     ("C07-array-member-assign-noop", r"\|cp[ds]\|.*arr\|"),
     ("C07-nested-struct-whole", r"\|(decl|cp[ds]|retd?|argval|recv|addr|argptr)\|.*\.inner\|"),
-    ("C07-callee-param-struct-copy", r"^[FSET].\|(cp[ds]|retd)\|par<|\|ret\|par<(ref|self|arr)"),
+    ("C07-callee-param-struct-copy", r"^[FSETU].\|(cp[ds]|retd)\|par<|\|ret\|par<(ref|arr)"),
     # --- references / by-value parameters / self
     ("C07-ref-array-member-write-lost", r"\|(w|retdi)\|par<ref P>\.arr\[\]"),
     ("C07-ref-nested-write-rejected", r"\|(w|retdi)\|par<ref P>\.inner\."),
@@ -1170,10 +1172,11 @@ AVOID = [
     ("C07-ref-param-passed-by-value-aliases", r"\|argval\|par<ref"),
     ("C07-self-passed-by-reference-no-writethrough", r"\|arg(ref|ptr)\|par<self"),
     ("C07-nested-member-dest-call-result-lost", r"\|retdi\|.*\.inner\."),
-    ("restriction-assign-to-self", r"\|(retd|cpd)\|par<self [^|.]*\|"),
     ("C07-self-call-return-exit-write-lost", r"\|recv\|par<self [^|]*\|.*R"),
     ("C07-array-element-dest-call-evaluated-twice", r"\|retdi\|.*\[\]"),
-    ("C07-self-writethrough-stale", r"^[ST].\|[^|]*\|(In|P|Q|PS|ES)|^[ST].\|[^|]*\|\*\("),
+    ("C07-self-writethrough-stale", r"^[STU].\|[^|]*\|(In|P|Q|PS|ES)|^[STU].\|[^|]*\|\*\("),
+    # --- string members as destinations of call results
+    ("C07-string-call-result-dest-lost", r"\|retdi\|(?!Q\.t\|)[^|]*\.t\|"),
     # --- members of floating type
     ("C07-double-member", r"\.d\|"),
     # --- documented / front-end restrictions (not defects): T& and T[n] arguments must be plain variables,
@@ -1312,7 +1315,7 @@ class Build:
         g.sh = trial
         self._pt, self._pn = pt, pn
         is_m = pm[0] == "self"
-        ctx = (("T" if is_m else "E") if depth else ("S" if is_m else "F"))
+        ctx = (("T" if is_m else ("U" if ctxc == "S" else "E")) if depth else ("S" if is_m else "F"))
         for spec in body:
             if spec[0] == "call":
                 nc = self._call(spec[1], spec[2], spec[3] if len(spec) > 3 else None,
@@ -1455,10 +1458,12 @@ def gen_conflict(seed, k):
             b.call([("arr", "A3", arr)], body, None, ex)
         b.op("rd", ["%s[0]" % arr, "%s[1]" % arr, "%s[2]" % arr, "n"])
     else:
-        recv = rng.choice(["e", "f"])
-        for mname in ("v", "w"):
+        recv = rng.choice(["e", "f", "u", "x"])
+        isq = recv in ("u", "x")             # Q: an int and a string member (no pointer form: C07-arrow-read-after-string-stale)
+        mem = ("n", "t") if isq else ("v", "w")
+        for mname in mem:
             b.op("w", "%s.%s" % (recv, mname), b.g.val())
-        form = rng.choice(["name", "arrow", "star"])
+        form = "name" if isq else rng.choice(["name", "arrow", "star"])
         if form != "name":
             b.op("addr", "pin", recv)
         b.sty = {"arrow": form != "star", "ivar": False}
@@ -1467,9 +1472,9 @@ def gen_conflict(seed, k):
             r = rng.random()
             root = rng.choice(["self", recv])
             if r < 0.6:
-                body.append(("w", "%s.%s" % (root, rng.choice("vw")), b.g.val()))
+                body.append(("w", "%s.%s" % (root, rng.choice(mem)), b.g.val()))
             elif form == "name":
-                body.append(("rd", ["self.%s" % rng.choice("vw"), "%s.%s" % (recv, rng.choice("vw"))]))
+                body.append(("rd", ["self.%s" % rng.choice(mem), "%s.%s" % (recv, rng.choice(mem))]))
             else:
                 # a receiver reached through a pointer is copied in and back but NOT written through
                 # (statement_executor.cpp:720 needs the receiver's name): the model's Mech differs from the code on
@@ -1479,16 +1484,18 @@ def gen_conflict(seed, k):
         ex = rng.choice(["fall", "ret", "val"])
         rpath = recv if form == "name" else "*pin"
         if ex == "val":
-            b.call([("self", "In", rpath)], body, ("self.%s" % rng.choice("vw"), "n", "int"))
+            b.call([("self", "Q" if isq else "In", rpath)], body, ("self.%s" % mem[0], "n", "int"))
         else:
-            b.call([("self", "In", rpath)], body, None, ex)
-        rd = ["%s.v" % recv, "%s.w" % recv, "n"]
+            b.call([("self", "Q" if isq else "In", rpath)], body, None, ex)
+        rd = ["%s.%s" % (recv, mem[0]), "%s.%s" % (recv, mem[1]), "n"]
         if form != "name":
             rd += ["pin->v", "pin->w"]
         b.op("rd", rd)
     c = b.case()
     c["origin"] = "conflict"
     c["k"] = k
+    if k % 3 and isq:
+        c["strings"] = True
     return c
 
 
@@ -1532,7 +1539,7 @@ def run(rep):
             c = load_case(c)
             c["origin"] = "corpus"
             cases.append(c)
-    n_rand = 1500 if tier == "quick" else 60000
+    n_rand = 2400 if tier == "quick" else 60000
     maxlen = 60 if tier == "quick" else 90
     avoided = {}
     n_avoid_total = 0
@@ -1543,7 +1550,7 @@ def run(rep):
         for c, av in ex.map(_gen_job, jobs, chunksize=50):
             cases.append(c)
             n_avoid_total += av
-    n_conf = 60 if tier == "quick" else 3000
+    n_conf = 240 if tier == "quick" else 6000
     for k in range(n_conf):
         cases.append(gen_conflict(seed, k))
 
@@ -1585,6 +1592,25 @@ def run(rep):
             fam = role + ("*" if "*(" in ex else "") + (":" + re.findall(r"par<(\w+)", ex)[0] if "par<" in ex else "")
             hist_roles[fam] = hist_roles.get(fam, 0) + 1
     nops = sum(len(c["ops"]) for c in cases)
+    # calls by receiver/argument form x exit form (the self / array write-back code is triplicated per exit path)
+    call_matrix, n_nested = {}, 0
+    for c in cases:
+        top = [o for o in c["ops"] if o["k"] == "call"]
+        for o in walk_calls(c["ops"]):
+            if not any(o is t for t in top):
+                n_nested += 1
+            ex = ("return-value" if o["ret"] else ("return;" if o.get("exit") == "ret" else "falls-off-end"))
+            for prm in o["params"]:
+                if prm["mode"] == "val":
+                    continue
+                a = prm["arg"]
+                form = {"self": "recv", "arr": "array", "ref": "T&", "ptr": "&arg->T*", "pval": "ptr->T*"}[prm["mode"]]
+                if prm["mode"] == "self":
+                    form += ":" + ("p->" if a[0] == "d" and prm["sty"].get("arrow", True) else "(*p)." if a[0] == "d"
+                                   else "self" if a[0] == "par" and prm["sig"].split("|")[2].startswith("par<self") else
+                                   "param" if a[0] == "par" else "name")
+                key = "%s / %s" % (form, ex)
+                call_matrix[key] = call_matrix.get(key, 0) + 1
     sample = cases[len(cases) // 3]
     rep.coverage.update({
         "evaluations": len(cases),
@@ -1597,6 +1623,9 @@ def run(rep):
         "input_distribution": {"origin": hist_origin, "forms_by_role": dict(sorted(hist_roles.items())),
                                "max_history_length": maxlen, "placement": "objects global or local to main, 50/50"},
         "avoided_candidate_forms": n_avoid_total,
+        "calls_by_argument_form_and_exit": dict(sorted(call_matrix.items())),
+        "nested_calls": n_nested,
+        "string_enabled_histories": sum(1 for c in cases if c.get("strings")),
         "fragment": fragment_size(),
         "samples": [{"source": to_cb(sample), "model_transcript": mres[cases.index(sample)][1][:12]},
                     {"ops": [o["k"] for o in cases[-1]["ops"]], "source": to_cb(cases[-1]),
@@ -1604,7 +1633,10 @@ def run(rep):
         "disagreements": len(bad),
     })
 
-    bad.sort(key=lambda b: len(b[0]["ops"]))
+    # disagreements that also contradict the aliasing semantics (a concrete failing input of the property) first
+    # (main-stream histories have Spec = Mech: every disagreement there contradicts the property's own reading)
+    spec_of = {id(c): s_ for c, (s_, m_) in zip(cases, mres)}
+    bad.sort(key=lambda b: (b[0].get("origin") == "conflict", b[2] == spec_of.get(id(b[0])), len(b[0]["ops"])))
     for c, m, i in bad[:4]:
         report_disagreement(rep, impl, c)
 
